@@ -6,8 +6,9 @@ and compares all Signal.state / Signal.sensitivity values with a freshly constru
 before and after the history ran) and with independent dense references.  Along the way: after every reset() no signal carries a
 non-zero sensitivity; sensitivity() without a seed changes nothing; source states and the caller's seed arrays are not modified.
 The machinery (nets, interpreter, comparison) lives in native/C03_core.py, whose source is embedded verbatim in every replay file."""
+import contextlib
 import inspect
-import itertools
+import signal
 from native import C03_core as core
 from native.util import bound, REPLAY_HEAD
 
@@ -19,6 +20,28 @@ F_SHAPE = 'C03-linsolve-rhs-shape-change'
 def _replay(call):
     return (REPLAY_HEAD + CORE_SRC + f"\n\nfails = {call}\nfor f in fails:\n    print(f['kind'], '|', f['what'])\n"
             "assert not fails, f'{len(fails)} contract failure(s)'\n")
+
+
+@contextlib.contextmanager
+def _limit(seconds=60):
+    """A case that does not finish (e.g. a solver that never converges on stale data) is a failure, not a hang"""
+    def handler(signum, frame):
+        raise TimeoutError(f'case did not finish within {seconds} s')
+    old = signal.signal(signal.SIGALRM, handler)
+    signal.alarm(seconds)
+    try:
+        yield
+    finally:
+        signal.alarm(0)
+        signal.signal(signal.SIGALRM, old)
+
+
+def _guarded(fn, *args):
+    try:
+        with _limit():
+            return fn(*args)
+    except Exception as e:
+        return [dict(kind='exception', what=f'{fn.__name__}{args!r} raised {type(e).__name__}: {str(e)[:200]}', detail=None)]
 
 
 def _finding(spec, fails):
@@ -34,7 +57,7 @@ def _finding(spec, fails):
 
 
 def _run(r, spec, pattern, seed, final='all'):
-    fails = core.run_case(spec, pattern, seed, final)
+    fails = _guarded(core.run_case, spec, pattern, seed, final)
     r.case((spec, pattern, final))
     if fails:
         r.check(False, fails[0]['what'], dict(net=spec, history=pattern, final_seeds=final, seed=seed),
@@ -72,7 +95,7 @@ def reset_and_unseeded_primitives(r, tier, seed):
     cases += [('network_reset', (d, w)) for d in (0, 1, 2) for w in (1, 2, 4)]
     cases += [('module_reset', (i, o)) for i in (1, 2, 3) for o in (1, 2, 3)]
     for name, arg in cases:
-        fails = core.primitive_case(name, arg, seed)
+        fails = _guarded(core.primitive_case, name, arg, seed)
         r.case((name, arg))
         r.check(not fails, fails[0]['what'] if fails else '', dict(case=name, arg=arg, seed=seed), observed=[f['what'] for f in fails[:4]],
                 replay_code=_replay(f"primitive_case({name!r}, {arg!r}, {seed})"))
@@ -84,18 +107,23 @@ LIN_SPARSE = [('linsolve', 'sparse', c, rhs, lda) for c in ('spd', 'symindef', '
 
 
 @bound('LinSolve on 6x6 dense matrices of the classes {SPD, symmetric indefinite, non-symmetric, Hermitian, complex symmetric, complex general} '
-       '(condition < 10; designs 1,2 mod 3 have exactly decoupled dofs so the set of diagonal dofs changes along the history), right-hand sides '
+       '(condition < 10; designs 0,1 mod 3 have exactly decoupled dofs (dof 0 / the last two) so the set and values of diagonal dofs change along the history), right-hand sides '
        '{vector, (n,2) block, complex vector on a real matrix}, with and without LDAWrapper; 11 named histories (<= 3 rounds) + finals with a single / no '
-       'seed + 2 [quick] / 12 [thorough] random histories of 14-30 operations; 1 [quick] / 3 [thorough] data seeds; tolerance 1e-10 relative; '
+       
+       'seed + 2 [quick] / 12 [thorough] random histories of 14-30 operations; 1 [quick] / 3 [thorough] data seeds, thorough also 11x11 (dense) / 15x15 (sparse) / 6x4 mesh / 10x10, 24x24 (eigen); tolerance 1e-10 relative; '
        'independent reference numpy.linalg.solve and the adjoint formulas')
 def history_linsolve_dense(r, tier, seed):
     _sweep(r, LIN_DENSE, tier, seed)
+    if tier == 'thorough':      # larger systems
+        _sweep(r, [s + (11,) for s in LIN_DENSE if s[4]], 'quick', seed + 10)
 
 
 @bound('as history_linsolve_dense for banded (bandwidth 2) csc matrices of the same six classes, vector and block right-hand sides, with and without '
        'LDAWrapper; in-place updates write into A.data')
 def history_linsolve_sparse(r, tier, seed):
     _sweep(r, LIN_SPARSE, tier, seed)
+    if tier == 'thorough':
+        _sweep(r, [s + (15,) for s in LIN_SPARSE if s[4]], 'quick', seed + 10)
 
 
 COMPLIANCE = [('compliance', s, rhs) for s, rhs in (('auto', 'vec'), ('auto', 'blk'), ('nolda', 'vec'), ('cg-none', 'vec'), ('cg-jacobi', 'vec'), ('cg-sor', 'vec'),
@@ -104,9 +132,11 @@ COMPLIANCE = [('compliance', s, rhs) for s, rhs in (('auto', 'vec'), ('auto', 'b
 
 @bound('x -> DensityFilter -> AssembleStiffness(bc) -> LinSolve -> u, c = u.f on a 4x2 mesh (and 2x2x2 in 3D), densities in [0.3,1]; solver in {auto '
        '(sparse LU + LDAWrapper), no LDAWrapper, CG(tol 1e-12) with no / Jacobi / SOR / ILU / geometric-multigrid preconditioner (previous solution is '
-       'the initial guess)}; vector and 2-column loads; same histories as history_linsolve_dense; tolerance 1e-10 (direct), 2e-7 (CG)')
+       'the initial guess)}; vector and 2-column loads; same histories as history_linsolve_dense; tolerance 1e-10 (direct), 2e-9 (CG: 1e-12 x condition number)')
 def history_compliance_iterative(r, tier, seed):
     _sweep(r, COMPLIANCE, tier, seed)
+    if tier == 'thorough':
+        _sweep(r, [s[:3] + ((6, 4, 0),) for s in COMPLIANCE[:10]], 'quick', seed + 10)
 
 
 EIG = [('eigdense', c) for c in ('sym', 'herm', 'gen', 'nonherm')] + [('eigsparse', c, s) for c, s in (('sym', None), ('sym', 0.4), ('gen', None), ('gen', 2.0))]
@@ -114,21 +144,24 @@ EIG = [('eigdense', c) for c in ('sym', 'herm', 'gen', 'nonherm')] + [('eigspars
 
 @bound('EigenSolve: dense 6x6 {symmetric, Hermitian, generalised (B SPD), non-Hermitian with real spectrum}; sparse tridiagonal 12x12 with nmodes=3, '
        '{standard, generalised} x {sigma = 0, sigma != 0} (cached shift-invert operator and per-mode adjoint solvers); eigenvalue gaps >= 1, eigenvectors '
-       'with clearly non-zero mean (sign convention well defined); seeds on eigenvalues and eigenvectors; same histories; tolerance 1e-8 / 1e-7 (ARPACK); '
+       'with clearly non-zero mean (sign convention well defined); seeds on eigenvalues and eigenvectors; same histories; tolerance 1e-10 (dense) / 1e-9 (ARPACK, random start vector); '
        'eigenvalues against numpy.linalg.eigvalsh')
 def history_eigensolve(r, tier, seed):
     _sweep(r, EIG, tier, seed)
+    if tier == 'thorough':
+        _sweep(r, [s + (10,) for s in EIG[:4]] + [s + (24,) for s in EIG[4:]], 'quick', seed + 10)
 
 
 OVERHANG = [('overhang', (4, 3, 0), '+y', None, True), ('overhang', (4, 3, 0), 'y-', None, True), ('overhang', (3, 4, 0), 'x', None, False),
             ('overhang', (3, 4, 0), [-1, 0], None, True), ('overhang', (3, 3, 0), [0, 1, 0], 3, False), ('overhang', (4, 1, 0), 'y', None, False),
             ('overhang', (1, 3, 0), 'y', None, False), ('overhang', (3, 2, 3), 'z-', 9, True), ('overhang', (2, 3, 3), '+z', 5, False),
-            ('overhang', (3, 3, 2), [0, -1, 0], 5, True), ('overhang', (2, 3, 2), 'x', 9, False), ('overhang', (3, 2, 2), '-x', None, True)]
+            ('overhang', (3, 3, 2), [0, -1, 0], 5, True), ('overhang', (2, 3, 2), 'x', 9, False), ('overhang', (3, 2, 2), '-x', None, True),
+            ('overhang', (3, 3, 0), '-y', None, False, False), ('overhang', (2, 2, 3), 'z', 9, True, False)]
 ASSEMBLE = [('assemble', (3, 2, 0)), ('assemble', (1, 3, 0)), ('assemble', (2, 2, 1))]
 
 
 @bound('x -> [FilterConv(radius 1.5; boundary modes constant 0 / edge / symmetric / wrap)] -> OverhangFilter -> y, g = y.w on 2D meshes up to 4x3 and 3D up '
-       'to 3x2x3, all six print directions (string and vector form), nsampling 3 / 5 / 9, one-layer and one-column meshes, densities with exact 0 and 1; '
+       'to 3x2x3, all six print directions (string and vector form), nsampling 3 / 5 / 9, one-layer and one-column meshes, densities with exact 0 and 1, with and without a module after the filter; '
        'x -> DensityFilter -> {AssembleMass(bc unsorted, add_constant) -> v.M.v (DyadCarrier seed), AssemblePoisson(bc) -> dense copy -> <P,W> (dense seed)} in '
        'nested networks on 3x2, 1x3, 2x2x1 meshes with one exactly-zero density; same histories; tolerance 1e-10; overhang forward values against an '
        'element-by-element re-implementation')
@@ -151,6 +184,7 @@ def history_soe_condensation(r, tier, seed):
 @bound('SystemOfEquations / StaticCondensation fed by a *source* matrix signal (no producing module): same histories; every failure here is the known '
        'overwrite of the input matrix state (second response() without re-setting the matrix raises; source state != what the caller set)', finding=None)
 def history_soe_source_matrix(r, tier, seed):
+    _run(r, SOE_SRC[0], 'double', seed)      # the history-dependence witness first: response() twice on unchanged inputs
     _sweep(r, SOE_SRC, tier, seed, nrand=1, finals=False)
 
 
@@ -169,7 +203,7 @@ def history_aggregation_slices(r, tier, seed):
 def documented_memories(r, tier, seed):
     for sd in ([seed] if tier == 'quick' else range(seed, seed + 5)):
         for kind, d in (('scaling', 0.0), ('damped', 0.3), ('damped', 0.9)):
-            fails = core.memory_case(kind, sd, d)
+            fails = _guarded(core.memory_case, kind, sd, d)
             r.case((kind, d, sd))
             r.check(not fails, fails[0]['what'] if fails else '', dict(kind=kind, damping=d, seed=sd), observed=[f['what'] for f in fails[:4]],
                     replay_code=_replay(f"memory_case({kind!r}, {sd}, {d})"))
